@@ -158,7 +158,7 @@ CHECKS = {
     "C17": dict(
         category="fault_enumeration",
         technique="fault catalogue enumeration x Hypothesis placement and prefix generation; positions recomputed by the harness",
-        text="88 catalogued fault kinds (73 error/critical, 15 warning), each with the token at which pdpy11 documents the diagnostic, are "
+        text="98 catalogued fault kinds (81 error/critical, 17 warning), each with the token at which pdpy11 documents the diagnostic, are "
              "planted at every placement class (main first/middle/last, inside .repeat, in an included file, in the 2nd and 3rd linked "
              "file) - once exhaustively with fixed surroundings and CLI renderings, then with Hypothesis-drawn surroundings (tabs, "
              "non-ASCII comments and strings, labels and tabs on the culprit's line). Every diagnostic of every run is checked for "
